@@ -8,6 +8,7 @@ from ..astutil import call_name
 from ..e7_order import weak_orderings
 from ..e3_axes import Interp, Arr, Num, Ax
 from ..scenarios import fit_scenario, nonusage, dedup_events
+from ..match import expect_assign, expect_call, canon_equal, resolve_expr
 
 PROP = "C15"
 EXPLANATION = (
@@ -154,7 +155,9 @@ def run(pm, ctx):
     # ------------------------------------------------------------------ b
     nl = [s for s in ast.walk(ip) if isinstance(s, ast.Assign) and norm_src(s.targets[0]) == "num_leaf"]
     site = "Douglas._init_params: leaf count"
-    okk = len(nl) == 2
+    okk = len(nl) >= 1
+    if not nl:
+        ctx.unrecognised("C15-b", "Douglas._init_params: leaf count", "no assignment to num_leaf")
     for s in nl:
         v = norm_src(s.value)
         masked = _in_else(s)
@@ -167,37 +170,51 @@ def run(pm, ctx):
     okk = okk and len(draws) == 2 and all(norm_src(kw.value) in ("(self.n_cuts,)", "self.n_cuts") for d in draws for kw in d.keywords if kw.arg == "size")
     if okk:
         ctx.ok("C15-b", site, "(n_cuts+1) ** #used features rows, n_cuts cuts per used feature")
-    else:
+    elif nl:
         ctx.violation("C15-b", u.relpath, "Douglas._init_params", norm_src(nl[0]) if nl else "num_leaf", "the number of leaves is not (n_cuts+1) ** (number of used features) / "
                       "cuts per feature differ from n_cuts", line=ip.lineno, site=site)
     rets = [n for n in ast.walk(lb) if isinstance(n, ast.Return)]
-    if len(rets) == 1 and isinstance(rets[0].value, ast.Tuple) and norm_src(rets[0].value.elts[0]) == "softmax(logits / self.temperature)":
-        ctx.ok("C15-b", "Douglas._leaf_binning: memberships = softmax(logits / temperature)")
+    cfgl = CFG(lb)
+    site = "Douglas._leaf_binning: memberships"
+    if len(rets) != 1 or not isinstance(rets[0].value, ast.Tuple) or len(rets[0].value.elts) != 2:
+        ctx.unrecognised("C15-b", site, "does not return (memberships, order)")
     else:
-        ctx.violation("C15-b", u.relpath, "Douglas._leaf_binning", norm_src(rets[0]) if rets else "return", "bin memberships are not a softmax of the logits over the temperature",
-                      line=lb.lineno, site="_leaf_binning: softmax")
-    msrc = [norm_src(s) for s in ml.body]
-    if any("np.einsum('ij,ik->ijk', leaf_res1, leaf_res2)" in s for s in msrc) and any(s.startswith("return product.reshape((-1, np.prod(product.shape[1:])))") for s in msrc):
-        ctx.ok("C15-b", "Douglas._merge_leaf: per-sample outer product flattened")
+        memb = resolve_expr(cfgl, rets[0], rets[0].value.elts[0])
+        if isinstance(memb, ast.Call) and call_name(memb) == "softmax" and len(memb.args) == 1:
+            arg = memb.args[0]
+            # logits / temperature, with logits = X @ W + b
+            if canon_equal(arg, "(X @ W + b) / self.temperature") or (isinstance(arg, ast.BinOp) and isinstance(arg.op, ast.Div) and norm_src(arg.right) == "self.temperature"):
+                ctx.ok("C15-b", site, "softmax((X @ W + b) / temperature): a probability vector per sample for every temperature")
+            else:
+                ctx.violation("C15-b", u.relpath, "Douglas._leaf_binning", norm_src(memb)[:160], "the bin logits are not divided by the temperature before the softmax", line=rets[0].lineno, site=site)
+        else:
+            ctx.unrecognised("C15-b", site, f"memberships are {norm_src(memb)[:80]}, not a call of sklearn's softmax")
+    es = [n for n in ast.walk(ml) if isinstance(n, ast.Call) and call_name(n) == "np.einsum"]
+    site = "Douglas._merge_leaf"
+    if not es:
+        ctx.unrecognised("C15-b", site, "no einsum")
+    elif isinstance(es[0].args[0], ast.Constant) and es[0].args[0].value.replace(" ", "") == "ij,ik->ijk" and [norm_src(a) for a in es[0].args[1:]] == func_params(ml)[1:3]:
+        ctx.ok("C15-b", site, "per-sample outer product of the two membership vectors")
     else:
-        ctx.violation("C15-b", u.relpath, "Douglas._merge_leaf", msrc[0] if msrc else "einsum", "leaf memberships are not the per-sample outer product of the bins", line=ml.lineno,
-                      site="_merge_leaf")
-    isrc = [norm_src(s) for s in ast.walk(inf) if isinstance(s, ast.stmt)]
-    if "leaf = reduce(self._merge_leaf, all_binnings)" in isrc and "y_pred = leaf @ self.leaf_scores_" in isrc and any(s == "return softmax(y_pred)" for s in isrc):
-        ctx.ok("C15-b", "Douglas._infer: leaf = product over features; prediction = softmax(leaf @ leaf_scores_)")
-    else:
-        ctx.violation("C15-b", u.relpath, "Douglas._infer", "leaf", "the leaf memberships are not the product of all feature bins feeding softmax(leaf @ scores)", line=inf.lineno,
-                      site="_infer: leaf")
+        ctx.violation("C15-b", u.relpath, "Douglas._merge_leaf", norm_src(es[0]), "leaf memberships are not the per-sample outer product of the bins of two features", line=es[0].lineno, site=site)
+    expect_assign(ctx, "C15-b", u, "Douglas._infer", inf, "leaf", ["reduce(self._merge_leaf, all_binnings)"], "Douglas._infer: leaf memberships", "the leaves are not the product over all used features")
+    expect_assign(ctx, "C15-b", u, "Douglas._infer", inf, "y_pred", ["leaf @ self.leaf_scores_"], "Douglas._infer: scores", "predictions are not leaf memberships times leaf scores")
     # ------------------------------------------------------------------ c
-    lsrc = [norm_src(s) for s in lb.body]
-    need = ["order = np.argsort(cut_points)", "sorted_cut_points = cut_points[order]"]
-    site = "Douglas._leaf_binning: sorted cuts"
-    bline = [s for s in lsrc if s.startswith("b = ")]
-    if all(n in lsrc for n in need) and bline and "np.cumsum(np.concatenate([np.zeros(1), -sorted_cut_points]))" in bline[0] and rets and norm_src(rets[0].value.elts[1]) == "order":
-        ctx.ok("C15-c", site, "biases from the ascending cuts; the permutation is returned")
+    o = expect_assign(ctx, "C15-c", u, "Douglas._leaf_binning", lb, "order", ["np.argsort(cut_points)"], "Douglas._leaf_binning: order", "the cuts are not sorted in ascending order")
+    sc = expect_assign(ctx, "C15-c", u, "Douglas._leaf_binning", lb, "sorted_cut_points", ["cut_points[order]"], "Douglas._leaf_binning: sorted cuts", "the biases are not built from the sorted cuts")
+    bdef = [s_ for s_ in ast.walk(lb) if isinstance(s_, ast.Assign) and norm_src(s_.targets[0]) == "b"]
+    site = "Douglas._leaf_binning: biases"
+    if not bdef:
+        ctx.unrecognised("C15-c", site, "no bias b")
+    elif "np.cumsum(np.concatenate([np.zeros(1), -sorted_cut_points]))" in norm_src(bdef[0].value):
+        ctx.ok("C15-c", site, "b_k = -(sum of the k smallest cuts)")
     else:
-        ctx.violation("C15-c", u.relpath, "Douglas._leaf_binning", bline[0] if bline else "b", "the bin biases are not the cumulative sums of the sorted cut points "
-                      "(or the sorting permutation is not returned)", line=lb.lineno, site=site)
+        ctx.violation("C15-c", u.relpath, "Douglas._leaf_binning", norm_src(bdef[0]), "the bin biases are not the cumulative sums of the negated sorted cut points", line=bdef[0].lineno, site=site)
+    if len(rets) == 1 and isinstance(rets[0].value, ast.Tuple) and len(rets[0].value.elts) == 2:
+        if norm_src(rets[0].value.elts[1]) == "order":
+            ctx.ok("C15-c", "Douglas._leaf_binning: the sorting permutation is returned for back-propagation")
+        else:
+            ctx.violation("C15-c", u.relpath, "Douglas._leaf_binning", norm_src(rets[0]), "the permutation returned is not the one used to sort the cuts", line=rets[0].lineno, site="_leaf_binning: returned order")
     # parity of argsort between the sorted-space gradient and the re-indexing
     back = [s for s in ast.walk(cg) if isinstance(s, ast.Assign) and norm_src(s.targets[0]) == "cut_grad"]
     site = "Douglas._compute_grads: inverse permutation"
@@ -211,18 +228,17 @@ def run(pm, ctx):
             cur = cur.args[0]
         okp = n_arg % 2 == 1 and norm_src(cur) == "self._all_orders[i]" and norm_src(back[0].value.value) == "cumsum_grad"
         # retained orders are the ones returned by _leaf_binning
-        okp = okp and "all_orders = [x[1] for x in all_binnings_results]" in isrc and "self._all_orders = all_orders" in isrc
-    if okp:
+    if not back:
+        ctx.unrecognised("C15-c", site, "no assignment to cut_grad")
+    elif okp:
         ctx.ok("C15-c", site, "cut_grad = sorted-space gradient re-indexed by argsort(order)")
     else:
         ctx.violation("C15-c", u.relpath, "Douglas._compute_grads", norm_src(back[0]) if back else "cut_grad", "the gradient computed for the sorted cuts is not mapped "
                       "back by the inverse of the sorting permutation", line=cg.lineno, site=site)
-    gsrc = [norm_src(s) for s in ast.walk(cg) if isinstance(s, ast.stmt)]
-    if "bias_grad = bin_grad.sum(0)[1:]" in gsrc and "cumsum_grad = -np.cumsum(bias_grad[::-1])[::-1]" in gsrc:
-        ctx.ok("C15-c", "Douglas._compute_grads: reverse cumulative sum through the bias construction")
-    else:
-        ctx.violation("C15-c", u.relpath, "Douglas._compute_grads", "cumsum_grad", "the back-propagation through the cumulative bias is not the reverse cumulative sum", line=cg.lineno,
-                      site="_compute_grads: cumsum")
+    expect_assign(ctx, "C15-c", u, "Douglas._compute_grads", cg, "bias_grad", ["bin_grad.sum(0)[1:]"], "Douglas._compute_grads: bias gradient", "the gradient of the constant first bias is not dropped")
+    expect_assign(ctx, "C15-c", u, "Douglas._compute_grads", cg, "cumsum_grad", ["-np.cumsum(bias_grad[::-1])[::-1]"], "Douglas._compute_grads: cumulative bias", "the back-propagation "
+                  "through b = cumsum(-sorted cuts) is not the negated reverse cumulative sum")
+    expect_assign(ctx, "C15-c", u, "Douglas._infer", inf, "all_orders", ["[x[1] for x in all_binnings_results]"], "Douglas._infer: retained orders", "the retained orders are not those returned by _leaf_binning")
     # ------------------------------------------------------------------ d
     loops = [n for n in ast.walk(fa) if isinstance(n, ast.For)]
     site = "Douglas.find_active_points: predicate"
